@@ -227,6 +227,21 @@ CLAIMS["C17"] = dict(
     technique="TLC-enumerated label lists executed on real shapes; TLA+ relations evaluated by TLC on every recorded step",
     design="DESIGN.md §3.4, §4 C17")
 
+CLAIMS["C13"] = dict(
+    category="model_checking",
+    text=("TLC (MeshMC, family setget) enumerates every history of up to 2 (thorough: 3) calls over {SetVerts same/different count, SetUvs, "
+          "SetNormals, SetTangents, SetBitangents, SetColors, SetEyeData, SetTriangles, save+reload} x 3 value variants; the harness runs "
+          "each on a shape created by CreateShapeFromData in OB, FO3, SK, SSE, FO4, FO76 and logs what every getter returns before and "
+          "after each call. TLC judges MeshOps!SetGetViol: the getter returns the given values, every other per-vertex array is untouched "
+          "(the companion of tangents/bitangents may be created), vertex count and triangles kept, all per-vertex arrays have the vertex "
+          "count, triangle indices valid; after a different vertex count every other array is absent or of the new length; after save and "
+          "reload every getter returns the same. Limit meshes (1, 2, 65534, 65535 vertices; 65535/65536/70000 triangles) are created, read "
+          "back and reloaded."),
+    note=("Values are chosen exact under each format's quantisation (components +-1, colours 0/1, UVs multiples of 1/8) so that exact equality of "
+          "content ids is the right comparison. Setters are called within their documented precondition (array length = vertex count)."),
+    technique="TLC-enumerated setter histories executed in six versions; TLA+ setter/getter relation evaluated by TLC on every recorded step",
+    design="DESIGN.md §3.4, §4 C13")
+
 NOT_YET = {}
 
 
